@@ -1,0 +1,244 @@
+//go:build verif
+
+package ecs
+
+// Read-only accessors for the verification harness in /verif (build tag "verif").
+// This file only adds code; nothing here is compiled into normal builds.
+
+import (
+	"reflect"
+	"sort"
+)
+
+// VerifComp wraps a runtime type as a Comp (the generic C[T]() needs a static type).
+func VerifComp(tp reflect.Type) Comp {
+	return Comp{tp: tp}
+}
+
+// VerifMaskBits is the mask width of this build.
+const VerifMaskBits = maskTotalBits
+
+// VerifIsDebug reports whether the ark_debug tag is set.
+const VerifIsDebug = isDebug
+
+func verifMask(out []int64, m *bitMask) []int64 {
+	var bits []int64
+	for i := 0; i < maskTotalBits; i++ {
+		if m.Get(uint8(i)) {
+			bits = append(bits, int64(i))
+		}
+	}
+	out = append(out, int64(len(bits)))
+	return append(out, bits...)
+}
+
+func verifTableIDs(out []int64, ids []tableID) []int64 {
+	out = append(out, int64(len(ids)))
+	for _, t := range ids {
+		out = append(out, int64(t))
+	}
+	return out
+}
+
+func verifTargetMap(out []int64, m map[entityID]*tableIDs) []int64 {
+	keys := make([]int, 0, len(m))
+	for k := range m {
+		keys = append(keys, int(k))
+	}
+	sort.Ints(keys)
+	out = append(out, int64(len(keys)))
+	for _, k := range keys {
+		out = append(out, int64(k))
+		out = verifTableIDs(out, m[entityID(k)].tables)
+	}
+	return out
+}
+
+// verifCell reads the integer payload of a component cell: the first int64 field of the
+// struct (0 for types without one, e.g. zero-size components).
+func verifCell(v reflect.Value) int64 {
+	if v.Kind() != reflect.Struct {
+		return 0
+	}
+	for i := 0; i < v.NumField(); i++ {
+		f := v.Field(i)
+		switch f.Kind() {
+		case reflect.Int64:
+			return f.Int()
+		case reflect.Ptr:
+			if f.Type().Elem().Kind() == reflect.Int64 {
+				if f.IsNil() {
+					return 0
+				}
+				return f.Elem().Int()
+			}
+		}
+	}
+	return 0
+}
+
+// VerifTableIndexConsistent checks the derived per-component column shortcut
+// (storage.components[c].columns[t]) against the tables' own column lookup.
+func (w *World) VerifTableIndexConsistent() bool {
+	s := &w.storage
+	for c := range s.components {
+		cols := s.components[c].columns
+		if len(cols) != len(s.tables) {
+			return false
+		}
+		for t := range s.tables {
+			if cols[t] != s.tables[t].components[c] {
+				return false
+			}
+		}
+	}
+	return true
+}
+
+// VerifDump serialises the internal state of the world in the format of the Coq model's
+// [dump] function (see /verif/coq/Model/Run.v).
+func (w *World) VerifDump() []int64 {
+	s := &w.storage
+	out := make([]int64, 0, 1024)
+
+	p := &s.entityPool
+	out = append(out, int64(len(p.entities)), int64(p.next), int64(p.available))
+	for _, e := range p.entities {
+		out = append(out, int64(e.id), int64(e.gen))
+	}
+
+	out = append(out, int64(len(s.entities)))
+	for _, ix := range s.entities {
+		if ix.table == maxTableID {
+			out = append(out, -1, int64(ix.row))
+		} else {
+			out = append(out, int64(ix.table), int64(ix.row))
+		}
+	}
+
+	out = append(out, int64(len(s.isTarget)))
+	for _, b := range s.isTarget {
+		if b {
+			out = append(out, 1)
+		} else {
+			out = append(out, 0)
+		}
+	}
+
+	out = append(out, int64(len(s.tables)))
+	for ti := range s.tables {
+		t := &s.tables[ti]
+		free := int64(0)
+		if t.isFree {
+			free = 1
+		}
+		out = append(out, int64(t.archetype), int64(t.len), int64(t.cap), free)
+		out = append(out, int64(len(t.relationIDs)))
+		for _, r := range t.relationIDs {
+			out = append(out, int64(r.component.id), int64(r.target.id), int64(r.target.gen))
+		}
+		out = append(out, int64(len(t.columns)))
+		for ci := range t.columns {
+			out = append(out, int64(t.columns[ci].target.id), int64(t.columns[ci].target.gen))
+		}
+		for r := uintptr(0); r < uintptr(t.len); r++ {
+			e := t.GetEntity(r)
+			out = append(out, int64(e.id), int64(e.gen))
+		}
+		for ci := range t.columns {
+			col := &t.columns[ci]
+			for r := 0; r < int(t.cap); r++ {
+				out = append(out, verifCell(col.data.Index(r)))
+			}
+		}
+	}
+
+	out = append(out, int64(len(s.archetypes)))
+	for ai := range s.archetypes {
+		a := &s.archetypes[ai]
+		out = append(out, int64(len(a.components)))
+		for _, c := range a.components {
+			out = append(out, int64(c.id))
+		}
+		out = verifTableIDs(out, a.tables.tables)
+		out = verifTableIDs(out, a.freeTables)
+		out = append(out, int64(a.numRelations))
+		for i := range a.components {
+			out = verifTargetMap(out, a.relationTables[i])
+		}
+		out = verifTargetMap(out, a.targetTables)
+	}
+
+	out = append(out, int64(len(s.relationArchetypes)))
+	for _, a := range s.relationArchetypes {
+		out = append(out, int64(a))
+	}
+	for c := range s.componentIndex {
+		out = append(out, int64(len(s.componentIndex[c])))
+		for _, a := range s.componentIndex[c] {
+			out = append(out, int64(a))
+		}
+	}
+	for c := range s.componentIndex {
+		out = append(out, int64(s.registry.Archetypes[c]))
+	}
+	out = append(out, int64(s.registry.version))
+
+	out = append(out, int64(len(s.cache.filters)))
+	for _, e := range s.cache.filters {
+		out = append(out, int64(e.id))
+		out = verifTableIDs(out, e.tables.tables)
+	}
+	out = append(out, int64(len(s.cache.intPool.pool)))
+	for _, x := range s.cache.intPool.pool {
+		out = append(out, int64(x))
+	}
+	out = append(out, int64(s.cache.intPool.next), int64(s.cache.intPool.available))
+
+	var lockBits []int64
+	for i := 0; i < mask64TotalBits; i++ {
+		if s.locks.locks.Get(uint8(i)) {
+			lockBits = append(lockBits, int64(i))
+		}
+	}
+	out = append(out, int64(len(lockBits)))
+	out = append(out, lockBits...)
+	bp := &s.locks.bitPool
+	out = append(out, int64(bp.length))
+	for i := 0; i < int(bp.length); i++ {
+		out = append(out, int64(bp.bits[i]))
+	}
+	out = append(out, int64(bp.next), int64(bp.available))
+
+	m := s.observers
+	out = append(out, int64(m.totalCount), int64(m.maxEventType))
+	var evs []int
+	for ev := 0; ev < 256; ev++ {
+		if len(m.observers[ev]) > 0 || m.hasObservers[ev] {
+			evs = append(evs, ev)
+		}
+	}
+	out = append(out, int64(len(evs)))
+	for _, ev := range evs {
+		out = append(out, int64(ev), int64(len(m.observers[ev])))
+		for _, o := range m.observers[ev] {
+			out = append(out, int64(o.id))
+		}
+		b2i := func(b bool) int64 {
+			if b {
+				return 1
+			}
+			return 0
+		}
+		out = append(out, b2i(m.hasObservers[ev]))
+		out = verifMask(out, &m.allComps[ev])
+		out = verifMask(out, &m.allWith[ev])
+		out = append(out, b2i(m.anyNoComps[ev]), b2i(m.anyNoWith[ev]))
+	}
+	out = append(out, int64(len(m.pool.pool)))
+	for _, x := range m.pool.pool {
+		out = append(out, int64(x))
+	}
+	out = append(out, int64(m.pool.next), int64(m.pool.available))
+	return out
+}
